@@ -294,7 +294,7 @@ def run(chk, tier, seed):
     for name, body, conds, with_try in progs:
         cs = [z3.BitVec('c%d' % i, 8) for i in range(len(conds))]
         pre = [z3.ULE(c, 1) for c, t in zip(cs, conds) if t == 'bool']
-        eng = Engine(mod, event_funcs={'mark'}, max_visits=4 * LOOP_ITERS * LOOP_ITERS + 8)
+        eng = Engine(mod, event_funcs={'mark'}, max_visits=4 * LOOP_ITERS ** (3 if tier == 'quick' else 4) + 16)
         st = State(); st.pc.extend(pre)
         try:
             paths = eng.run(mod.by_pretty(name), cs, st)
@@ -302,6 +302,10 @@ def run(chk, tier, seed):
             raise Inconclusive('%s: %s' % (name, e))
         chk.funcs_encoded.update(eng.funcs_run); chk.solver_s += eng.solver_s
         chk.cov['ir_instructions_executed'] = chk.cov.get('ir_instructions_executed', 0) + eng.steps_total
+        if any(p.status == 'bound' for p in paths):
+            # more block visits than the unwinding bound allows (deeply nested loops): the program is set aside, counted
+            chk.cov['programs_beyond_the_unwinding_bound'] = chk.cov.get('programs_beyond_the_unwinding_bound', 0) + 1
+            continue
         # reference table over the finite partition of the input space
         table = {}
         for assign in itertools.product(*[CLASSES[t] for t in conds]):
